@@ -39,6 +39,7 @@ def step_clauses(cfg):
 def run(tier, seed):
     import maxdrive
     steps = dict(clauses_for=step_clauses, n_quick=4, n_thorough=40, gen_kw=[{"closed": True}],
+                 extra_configs=maxdrive.periodic_systematic(True),
                  generator=maxdrive.gen, observe=maxdrive.observe)
     return opscheck.run_property(
         "C01", tier, seed, design=opscheck.design_ops("C01", None), clauses_for=clauses_for,
